@@ -431,6 +431,15 @@ CAMPAIGNS['C02'].append(camp(
     nontrivial=nt_rollback_restored, chunk=6, follow=1, weight=0.5,
     only_calls=['gzopen_w', 'gzwrite', 'gzclose'],
     sweep_max={'quick': 12, 'thorough': None}))
+CAMPAIGNS['C04'].append(camp(
+    'c04-oserror', 'C04',
+    dict(VIEW_HEAVY, p_catch=0.95, p_tamper=0.6, p_mutate_step=0.4,
+         n_steps=(2, 4), w_probe=18),
+    'the virtual view after a caught internal OSError: query-dominated '
+    'programs, OSError at every pre-commit mutating call index of the last '
+    'build', mode='oserror-sweep', nontrivial=nt_rollback_restored, chunk=6,
+    follow=1, torn=False, errnos=['EXDEV', 'ENOSPC', 'EACCES'],
+    sweep_max={'quick': 10, 'thorough': None}))
 WIDE_RULE = ('wide builds: one statement builds 130-260 outputs (over '
              'foreign files or previous outputs), so that more than 128 files '
              'are moved aside in one build, then the build fails and is '
